@@ -3,7 +3,7 @@
    truncation, truncation_complete (pure cuts) and the two refinement results reader_factor /
    jwrite_layout with the block-parser lemmas (cuts followed by zeros or garbage). *)
 From GL Require Import Base.Bytes Base.BytesProofs Codec.Journal Codec.JournalSpec Codec.JournalLemmas
-  Codec.JournalReaderProofs Codec.JournalWriterProofs Codec.JournalProofs Store.Crash Store.CrashProofs
+  Codec.JournalLayoutProofs Codec.JournalReaderProofs Codec.JournalWriterProofs Codec.JournalProofs Store.Crash Store.CrashProofs
   Store.CrashBytes.
 From Coq Require Import PeanoNat Lia ZifyN ZifyNat ZifyBool.
 
@@ -22,6 +22,18 @@ Proof.
   - now rewrite Nat.min_l.
   - rewrite Nat.min_r by exact H. now rewrite !firstn_all2 by lia.
 Qed.
+
+Lemma Forall2_len {A B} (R : A -> B -> Prop) a b : Forall2 R a b -> length a = length b.
+Proof. induction 1; cbn; congruence. Qed.
+
+Lemma firstn_S_nth {A} (d : A) i : forall l, (i < length l)%nat -> firstn (S i) l = firstn i l ++ [nth i l d].
+Proof.
+  induction i as [|i IH]; intros [|x l] H; cbn [length] in H; try lia; [reflexivity|].
+  cbn [firstn nth app]. f_equal. apply IH. lia.
+Qed.
+
+Lemma hd_skipn_nth {A} (d : A) i : forall l, hd d (skipn i l) = nth i l d.
+Proof. induction i as [|i IH]; intros [|x l]; try reflexivity. cbn [skipn nth]. apply IH. Qed.
 
 Section CrashBytesProofs.
   Variable crc : bytes -> N.
@@ -318,6 +330,189 @@ Section CrashBytesProofs.
       apply chunks_prefixb_refl.
     - destruct Ht as [->|(r & sz & ->)]; reflexivity.
   Qed.
+
+  (* ------------------------------------------------------------------ exactly the records inside the cut *)
+  (* the open block of a non-empty layout is never empty: a record ends with the push of its last chunk *)
+  Lemma lay_record_open l r : wf_lay p l -> l_open (lay_record p l r) <> [].
+  Proof.
+    intros Wf. destruct (lay_next_ok p pok l Wf) as (W1 & Hfit & _).
+    unfold lay_record. rewrite (lws_fin p pok).
+    - destruct (lay_write_st p (length r) (lay_next p l) true [] r) as ((l', f'), d').
+      cbn. intros E. destruct (l_open l'); discriminate.
+    - unfold fits. change (lenN (@nil N)) with 0. lia.
+    - lia.
+  Qed.
+
+  Lemma layout_open_nonempty rs : forall l, wf_lay p l -> rs <> [] ->
+    l_open (fold_left (lay_record p) rs l) <> [].
+  Proof.
+    induction rs as [|r rs IH]; intros l Wf Hne; [congruence|]. cbn [fold_left].
+    destruct rs as [|r' rs'].
+    - cbn. apply lay_record_open. exact Wf.
+    - apply IH; [|discriminate]. apply (lay_record_ok crc p pok). exact Wf.
+  Qed.
+
+  Lemma fit_lt a : forall b n, n < bsize p a -> (fit p (a ++ b) n < length a)%nat.
+  Proof.
+    induction a as [|c a IH]; intros b n H; cbn [bsize app fit length] in *; [lia|].
+    destruct (csize p c <=? n) eqn:E; [|lia].
+    specialize (IH b (n - csize p c)). lia.
+  Qed.
+
+  Lemma fitb_lt_same cl1 o1 more : o1 <> [] -> forall n, n < bs p * lenN cl1 + bsize p o1 ->
+    (fitb p cl1 (o1 ++ more) n < length (concat cl1) + length o1)%nat.
+  Proof.
+    intros Ho. induction cl1 as [|c1 cl IH]; intros n Hn.
+    - cbn [fitb concat length]. change (lenN (@nil (list chunk))) with 0 in Hn. apply fit_lt. lia.
+    - rewrite lenN_cons in Hn. cbn [fitb concat]. rewrite app_length.
+      destruct (bs p <=? n) eqn:E.
+      + specialize (IH (n - bs p)). lia.
+      + pose proof (fit_le p pok c1 n). destruct o1; [congruence|]. cbn [length]. lia.
+  Qed.
+
+  Lemma fitb_lt_closed cl1 o1 more rest open' : o1 <> [] -> bsize p o1 <= bs p ->
+    forall n, n < bs p * lenN cl1 + bsize p o1 ->
+    (fitb p (cl1 ++ (o1 ++ more) :: rest) open' n < length (concat cl1) + length o1)%nat.
+  Proof.
+    intros Ho Hs. induction cl1 as [|c1 cl IH]; intros n Hn.
+    - cbn [app fitb concat length]. change (lenN (@nil (list chunk))) with 0 in Hn.
+      replace (bs p <=? n) with false by lia. apply fit_lt. lia.
+    - rewrite lenN_cons in Hn. cbn [app fitb concat]. rewrite app_length.
+      destruct (bs p <=? n) eqn:E.
+      + specialize (IH (n - bs p)). lia.
+      + pose proof (fit_le p pok c1 n). destruct o1; [congruence|]. cbn [length]. lia.
+  Qed.
+
+  Lemma fitb_lt_ext l1 l n :
+    wf_lay p l1 -> lay_ext l1 l -> l_open l1 <> [] -> n < lenN (render_lay crc p l1) ->
+    (fitb p (l_closed l) (l_open l) n < length (lay_chunks l1))%nat.
+  Proof.
+    intros W1 (more & Hext) Ho Hn. rewrite (lenN_render_lay crc p pok l1 W1) in Hn.
+    destruct W1 as (Wc & (Ws & _)). unfold lay_chunks. rewrite app_length.
+    destruct Hext as [(E1 & E2)|(rest & E)].
+    - rewrite E1, E2. apply fitb_lt_same; assumption.
+    - rewrite E. apply fitb_lt_closed; assumption.
+  Qed.
+
+  Lemma tail_ok_bad tl : tail_ok tl -> forallb is_bad tl = true.
+  Proof. intros [->|(r & sz & ->)]; reflexivity. Qed.
+
+  (* a cut strictly inside the stream of the first j records loses the j-th *)
+  Lemma cut_upper ck fl (rs : list bytes) n j :
+    (1 <= j <= length rs)%nat -> (n < length (jwrite crc p fl (firstn j rs)))%nat ->
+    (length (recs_of (jread crc p false ck (firstn n (jwrite crc p fl rs)))) < j)%nat.
+  Proof.
+    intros Hj Hlen. unfold jread. rewrite (reader_factor crc p pok).
+    rewrite !(jwrite_layout crc p pok) in *.
+    set (rs1 := firstn j rs) in *. set (rs2 := skipn j rs).
+    assert (Ers : rs = rs1 ++ rs2) by (symmetry; apply firstn_skipn).
+    assert (L1 : length rs1 = j) by (unfold rs1; rewrite firstn_length; lia).
+    destruct (layout_ok crc p pok rs1 lay_empty (wf_empty p pok)) as (W1 & css1 & E1 & H1).
+    change (lay_chunks lay_empty) with (@nil chunk) in E1. cbn [app] in E1.
+    fold (layout p rs1) in W1, E1.
+    destruct (layout_ok crc p pok rs2 (layout p rs1) W1) as (W & css2 & E2 & H2).
+    assert (EL : layout p rs = fold_left (lay_record p) rs2 (layout p rs1)).
+    { unfold layout. rewrite Ers at 1. rewrite fold_left_app. reflexivity. }
+    rewrite <- EL in W, E2.
+    assert (Hext : lay_ext (layout p rs1) (layout p rs)) by (rewrite EL; apply lay_ext_fold, lay_ext_refl).
+    assert (Ho : l_open (layout p rs1) <> []).
+    { apply layout_open_nonempty; [apply (wf_empty p pok)|]. intros E0. rewrite E0 in L1. cbn in L1. lia. }
+    replace (firstn n (render_lay crc p (layout p rs)))
+      with (takeN (N.of_nat n) (render_lay crc p (layout p rs)))
+      by (unfold takeN; rewrite Nat2N.id; reflexivity).
+    destruct W as (Wc & Wo). unfold render_lay at 1.
+    destruct (stream_events_cut_gen crc p pok ck _ _ Wc Wo (N.of_nat n)) as (tl & Ek & Ht).
+    rewrite Ek. fold (lay_chunks (layout p rs)). rewrite E2.
+    assert (Hn' : N.of_nat n < lenN (render_lay crc p (layout p rs1))) by (unfold lenN; lia).
+    pose proof (fitb_lt_ext (layout p rs1) (layout p rs) (N.of_nat n) W1 Hext Ho Hn') as Hq.
+    set (q := fitb p _ _ _) in *. rewrite E1 in Hq |- *.
+    rewrite firstn_app. replace (q - length (concat css1))%nat with 0%nat by lia.
+    cbn [firstn]. rewrite app_nil_r.
+    destruct (assemble_prefix_bads rs1 css1 H1 q tl (tail_ok_bad tl Ht)) as (m & tlo & Em & Hok & Hm & Hlo & _).
+    rewrite Em, recs_of_app, recs_of_map_rec, (recs_of_end_ok tlo Hok), app_nil_r, firstn_length.
+    assert (m < length rs1)%nat; [|lia].
+    destruct (Nat.eq_dec m (length rs1)) as [Em1|]; [|lia].
+    pose proof (Forall2_len _ _ _ H1) as L2. rewrite firstn_all2 in Hlo by lia. lia.
+  Qed.
+
+  (* cut_records with m characterised: the m records kept are wholly inside the n bytes, and no more are *)
+  Lemma cut_records_exact ck fl (rs : list bytes) n :
+    exists m, (m <= length rs)%nat /\
+      recs_of (jread crc p false ck (firstn n (jwrite crc p fl rs))) = firstn m rs /\
+      (length (jwrite crc p fl (firstn m rs)) <= n)%nat /\
+      forall k, (k <= length rs)%nat -> (length (jwrite crc p fl (firstn k rs)) <= n)%nat -> (k <= m)%nat.
+  Proof.
+    destruct (cut_records ck fl rs n) as (m & Hm & Em & Hk).
+    exists m. split; [exact Hm|]. split; [exact Em|]. split.
+    - destruct m as [|m']; [cbn [firstn]; rewrite jwrite_nil; cbn; lia|].
+      destruct (Nat.le_gt_cases (length (jwrite crc p fl (firstn (S m') rs))) n) as [H|H]; [exact H|].
+      pose proof (cut_upper ck fl rs n (S m') ltac:(lia) H) as Hu.
+      rewrite Em, firstn_length in Hu. lia.
+    - intros k Hkl Hlen. specialize (Hk k Hlen). lia.
+  Qed.
+
+  (* ------------------------------------------------------------------ where a Sync can happen *)
+  (* writeJournal / flushManifest call Sync right after Flush.  When the writer model has written k records
+     and flushed after the k-th, the bytes that have reached the file are exactly jwrite fl (firstn k rs)
+     — the synced_len of Store/CrashBytes.v — and writing the remaining records continues from that state. *)
+  Lemma wRecords_app a : forall s fl b,
+    wRecords crc p s fl (a ++ b) =
+    wbind (wRecords crc p s fl a) (fun s1 => wRecords crc p s1 (skipn (length a) fl) b).
+  Proof.
+    induction a as [|r a IH]; intros s fl b; [reflexivity|].
+    cbn [app wRecords length]. destruct (wRecord crc p s r (hd false fl)) as [s1| |]; cbn [wbind]; [|reflexivity|reflexivity].
+    rewrite IH. destruct fl as [|f fl]; [|reflexivity]. cbn [tl skipn]. now rewrite skipn_nil.
+  Qed.
+
+  Lemma writePending_flushed s s' : writePending crc p s = WOk s' -> w_pending s' = false /\ w_written s' = w_j s'.
+  Proof.
+    unfold writePending. intros H.
+    destruct (w_pending s) eqn:Ep.
+    - destruct (fillHeader crc p true s) as [s1| |]; cbn [wbind] in H; try discriminate.
+      destruct (slice _ _ _); [|discriminate]. injection H as <-. cbn. split; reflexivity.
+    - cbn [wbind] in H. destruct (slice _ _ _); [|discriminate]. injection H as <-. cbn. split; [exact Ep|reflexivity].
+  Qed.
+
+  Lemma writePending_idem s s' : w_pending s = false -> w_written s = w_j s ->
+    writePending crc p s = WOk s' -> w_out s' = w_out s.
+  Proof.
+    intros Ep Ew H. unfold writePending in H. rewrite Ep in H. cbn [wbind] in H.
+    destruct (slice (w_buf s) (w_written s) (w_j s)) as [d|] eqn:Es; [|discriminate].
+    injection H as <-. cbn. apply slice_len in Es. destruct Es as (_ & _ & Ld).
+    rewrite Ew, N.sub_diag in Ld. apply lenN_0 in Ld. subst d. apply app_nil_r.
+  Qed.
+
+  Theorem sync_point_bytes fl (rs : list bytes) k :
+    (1 <= k <= length rs)%nat -> nth (k - 1) fl false = true ->
+    exists s, wRecords crc p (w_init p) fl (firstn k rs) = WOk s /\
+              w_out s = jwrite crc p fl (firstn k rs) /\
+              wRecords crc p (w_init p) fl rs = wRecords crc p s (skipn k fl) (skipn k rs).
+  Proof.
+    intros Hk Hfl.
+    destruct (writer_total crc p pok fl (firstn k rs)) as (s' & Eres & Eout).
+    unfold jwrite_res in Eres.
+    destruct (wRecords crc p (w_init p) fl (firstn k rs)) as [s| |] eqn:Er; cbn [wbind] in Eres; try discriminate.
+    exists s. split; [reflexivity|]. split.
+    - rewrite <- Eout. symmetry. unfold wClose in Eres.
+      (* the k-th record was flushed: s is the result of a writePending *)
+      assert (Hs : w_pending s = false /\ w_written s = w_j s).
+      { assert (Ek : firstn k rs = firstn (k - 1) rs ++ [nth (k - 1) rs []]).
+        { replace k with (S (k - 1)) at 1 by lia. apply firstn_S_nth. lia. }
+        rewrite Ek, wRecords_app in Er.
+        destruct (wRecords crc p (w_init p) fl (firstn (k - 1) rs)) as [s0| |]; cbn [wbind] in Er; try discriminate.
+        cbn [wRecords] in Er.
+        assert (Eh : hd false (skipn (length (firstn (k - 1) rs)) fl) = true).
+        { rewrite firstn_length, Nat.min_l by lia. rewrite <- Hfl.
+          apply hd_skipn_nth. }
+        rewrite Eh in Er. unfold wRecord in Er.
+        destruct (wNext crc p s0) as [s1| |]; cbn [wbind] in Er; try discriminate.
+        destruct (wWrite crc p _ s1 _) as [s2| |]; cbn [wbind] in Er; try discriminate.
+        destruct (wFlush crc p s2) as [s3| |] eqn:Ef; cbn [wbind] in Er; try discriminate.
+        injection Er as <-. unfold wFlush in Ef. apply (writePending_flushed s2 s3 Ef). }
+      destruct Hs as (Hp & Hw). apply (writePending_idem s s' Hp Hw Eres).
+    - rewrite <- (firstn_skipn k rs) at 1. rewrite wRecords_app, Er. cbn [wbind].
+      rewrite firstn_length, Nat.min_l by lia. reflexivity.
+  Qed.
 End CrashBytesProofs.
 
 (* ------------------------------------------------------------------ records with their own encoding *)
@@ -360,19 +555,26 @@ Section RecsProofs.
     - intros k Hlen. apply Hk. rewrite firstn_map. exact Hlen.
   Qed.
 
-  (* the same for a pure cut, from C12's truncation and truncation_complete alone: no hypothesis *)
+  (* the same for a pure cut: no hypothesis (C12's truncation and truncation_complete), and m is exactly the
+     number of records whose stream lies within the first n bytes *)
   Theorem byte_cut_is_record_image ck fl recs n :
     dec_ok recs ->
     exists m, (m <= length recs)%nat /\
       recover_bytes crc p A dec ck (crash_bytes crc p A enc fl recs n []) = firstn m recs /\
+      (synced_len crc p A enc fl recs m <= n)%nat /\
       forall k, (synced_len crc p A enc fl recs k <= n)%nat -> (Nat.min k (length recs) <= m)%nat.
   Proof.
     intros Hd. unfold crash_bytes, jbytes, synced_len, recover_bytes, recover_records in *.
     rewrite app_nil_r.
-    destruct (cut_records crc p pok ck fl (map enc recs) n) as (m & Hm & Em & Hk).
-    rewrite map_length in Hm, Hk. exists m. split; [exact Hm|]. split.
+    destruct (cut_records_exact crc p pok ck fl (map enc recs) n) as (m & Hm & Em & Hin & Hk).
+    rewrite map_length in Hm, Hk. exists m. split; [exact Hm|]. split; [|split].
     - rewrite Em, firstn_map. apply keep_decoded_enc. apply dec_ok_firstn. exact Hd.
-    - intros k Hlen. apply Hk. rewrite firstn_map. exact Hlen.
+    - unfold jbytes. rewrite <- firstn_map. exact Hin.
+    - intros k Hlen. destruct (Nat.le_gt_cases k (length recs)) as [Hle|Hgt].
+      + rewrite Nat.min_l by exact Hle. apply Hk; [exact Hle|]. unfold jbytes in Hlen. rewrite firstn_map. exact Hlen.
+      + rewrite Nat.min_r by lia. apply Hk; [lia|]. unfold jbytes in Hlen.
+        rewrite firstn_all2 by (rewrite map_length; lia).
+        rewrite firstn_all2 in Hlen by lia. exact Hlen.
   Qed.
 
   (* what is_crash_bytes gives: a record prefix that contains the synced records *)
